@@ -318,6 +318,42 @@ def r7(ctx):
         raise AnalysisBroken('C03.R7: AUTO-SYN send not found')
 
 
+def r9(ctx):
+    ctx.rule('C03.R9', 'a receive timeout means the full time has passed: in PlainDevice::recv and EnhancedDevice::recv the '
+             'remaining wait is recomputed inside the loop as (deadline - now) from a deadline fixed once before the loop '
+             '(clock + timeout ...) and a clock reading of this iteration, under the test now < deadline; a cumulative '
+             'decrement reports RESULT_ERR_TIMEOUT early after wake-ups without a symbol, and the AUTO-SYN generator relies '
+             'on that result to know that the bus was silent for its interval', minimum=2)
+    fb = ctx.fb
+    import re
+    for name in ('ebusd::PlainDevice::recv', 'ebusd::EnhancedDevice::recv'):
+        fn = fb.fn(name)
+        ctx.touch(fn)
+        tmo = fn.P(0)
+        loops = fn.all('DoStmt', 'WhileStmt', 'ForStmt')
+        inloop = set()
+        for l in loops:
+            inloop |= set(fn.walk(l))
+        ws = [(nid, rhs, op) for nid, d, rhs, op, lhs in fn.assignments() if d and d.split(':')[-1] == tmo and op != 'init' and nid in inloop]
+        if not ws:
+            raise AnalysisBroken('C03.R9: no update of the remaining timeout inside the loop of %s' % name)
+        for nid, rhs, op in ws:
+            ok = False
+            why = '%s %s %s' % (tmo, op, fn.key(rhs) if rhs is not None else '')
+            m = re.match(r'^(?:\(unsigned int\))?\((\w+) - (\w+)\)$', fn.key(rhs)) if (op == '=' and rhs is not None) else None
+            if m:
+                dl, now = m.group(1), m.group(2)
+                dsets = [(n2, r2, o2) for n2, d2, r2, o2, l2 in fn.assignments() if d2 and d2.split(':')[-1] == dl]
+                nsets = [(n2, r2, o2) for n2, d2, r2, o2, l2 in fn.assignments() if d2 and d2.split(':')[-1] == now]
+                fixed = len(dsets) == 1 and dsets[0][0] not in inloop and dsets[0][1] is not None and \
+                    'clockGetMillis()' in fn.key(dsets[0][1]) and re.search(r'(?<!\w)%s(?!\w)' % re.escape(tmo), fn.key(dsets[0][1])) is not None
+                fresh = len(nsets) == 1 and nsets[0][0] in inloop and nsets[0][1] is not None and fn.key(nsets[0][1]).endswith('clockGetMillis()')
+                guarded = fn.needs_one_of(nid, [('(%s < %s)' % (now, dl), True)])
+                ok = fixed and fresh and guarded
+                why += ' (deadline fixed before the loop: %s, fresh clock reading: %s, now < deadline: %s)' % (fixed, fresh, guarded)
+            ctx.ob('C03.R9', fn, nid, ok, 'remaining timeout in %s' % name.split('::')[-2], why)
+
+
 def run(ctx):
     r1(ctx)
     r2(ctx)
@@ -331,3 +367,4 @@ def run(ctx):
              'precedes the CRC update and the unescaping, so that a collision on any sent symbol (also on the halves of an '
              'escape sequence) silences ebusd', minimum=2)
     c01.raw_symbol_rules(ctx, None, 'C03.R8')
+    r9(ctx)
